@@ -16,11 +16,16 @@ def balancer(n_jobs=1, threshold=0, reaction_col="reaction", id_col="id", **kw):
     return b
 
 
-def run(reactions, batch_size=None, n_jobs=1, threshold=0, reaction_col="reaction", want_stats=True, **kw):
-    """-> (rows, stats). rows is the list of output dictionaries of rebalance()."""
+def run(reactions, batch_size=None, n_jobs=1, threshold=0, reaction_col="reaction", want_stats=True, cache_dir=None, **kw):
+    """-> (rows, stats). rows is the list of output dictionaries of rebalance().
+    cache_dir: run with caching enabled on that directory (public attributes cache / cache_dir of the Balancer)."""
     b = balancer(n_jobs=n_jobs, threshold=threshold, reaction_col=reaction_col, **kw)
     stats = {} if want_stats else None
-    rows = b.rebalance(list(reactions), output_dict=True, stats=stats, batch_size=batch_size)
+    b.cache, b.cache_dir = (cache_dir is not None), cache_dir
+    try:
+        rows = b.rebalance(list(reactions), output_dict=True, stats=stats, batch_size=batch_size)
+    finally:
+        b.cache, b.cache_dir = False, None
     return rows, stats
 
 
